@@ -135,4 +135,18 @@ theorem event_log_of_operations_only_lists_as_before (isOp : Entry → Bool) (L 
     queryWinOps isOp L o = queryWin L o ∧ windowSpecOps isOp L o = windowSpec L o :=
   ⟨queryWinOps_all_ops isOp L o hall, windowSpecOps_all_ops isOp L o hall⟩
 
+/-- `Get(h)` is the listing from `h` on, one entry long. For an entry that IS an operation it answers with
+that entry; for an entry that is NOT one, whatever the listing hands back is another entry of the log
+(another hash) - the test the Go `Get` makes before it answers, so that it fails instead of handing out
+the operation of an entry nobody asked for (finding F69, fix: commit; `get` of the injected entry in the
+corpus, `C12/get` predicate) - for every log with distinct hashes and every choice of the non-operations -/
+theorem get_answers_for_the_entry_asked_for (isOp : Entry → Bool) (L : List Entry) (h : Nat)
+    (hnd : HashNodup L) (e : Entry) (he : e ∈ L) (hh : e.hash = h) :
+    (isOp e = true → queryWinOps isOp L { gte := some h, amount := some 1 } = [e]) ∧
+    (isOp e = false → ∀ x ∈ queryWinOps isOp L { gte := some h, amount := some 1 }, x ≠ e ∧ x.hash ≠ h) :=
+  ⟨getOps_of_operation isOp L h hnd e he hh, getOps_of_non_operation isOp L h hnd e he hh⟩
+
+/-- … and the Go `Get` of this run makes that test before it answers -/
+theorem get_test_tied_to_go_text : Gen.logGetOrder = Order.logGet := gen_logGet_order
+
 end Orbit.C12
